@@ -172,9 +172,11 @@ class Executor(ResolutionContext):
                 return self.complete_value(
                     field_definition.type, nodes, path, info, res
                 )
-            except ResolverError as err:
-                # Raised while completing the value (e.g. by `resolve_type`):
-                # the field has already ended, `fail` must not end it again.
+            except (CoercionError, ResolverError) as err:
+                # Raised while completing the value (e.g. by `resolve_type`,
+                # or by invalid `@skip` / `@include` arguments in the
+                # sub-selection): the field has already ended, `fail` must
+                # not end it again.
                 self.add_error(err, path, node)
                 return None
 
